@@ -82,6 +82,46 @@ func runC03Crash(run *Run, seed int64, sc faultScn, rng *rand.Rand) (out []*c01R
 		ch.Close()
 	}()
 	pairs := map[[2]int]*pairState{}
+	// wire monitor for "never probes dead peers": direct pings S->C and indirect-ping requests X->S about C
+	type wireEv struct {
+		at       time.Time
+		from, to string
+		about    string
+		indirect bool
+	}
+	var wmu sync.Mutex
+	var wire []wireEv
+	var keys [][]byte
+	if ch.key != nil {
+		keys = [][]byte{ch.key}
+	}
+	ch.C.Net.OnPacket = append(ch.C.Net.OnPacket, func(ev *PacketEvent) {
+		if ev.Closed {
+			return
+		}
+		pi := ParsePacket(ev.Buf, keys)
+		if pi.Err != nil {
+			return
+		}
+		for _, l := range pi.Leaves {
+			switch l.Type {
+			case TPing:
+				var p WPing
+				if mpDecode(l.Body, &p) == nil {
+					wmu.Lock()
+					wire = append(wire, wireEv{ev.At, ev.From, ev.To, p.Node, false})
+					wmu.Unlock()
+				}
+			case TIndirectPing:
+				var p WIndirectPing
+				if mpDecode(l.Body, &p) == nil {
+					wmu.Lock()
+					wire = append(wire, wireEv{ev.At, ev.From, ev.To, p.Node, true})
+					wmu.Unlock()
+				}
+			}
+		}
+	})
 	ch.OnPoll = func(ch *Chaos) {
 		for _, c := range ch.Nodes {
 			if !c.Crashed {
@@ -205,6 +245,35 @@ func runC03Crash(run *Run, seed int64, sc faultScn, rng *rand.Rand) (out []*c01R
 			fail("no-leave-event", "%s no longer lists crashed %s but delivered no leave event after +%v", s.Name, c.Name, t0.Sub(ch.Start))
 			continue
 		}
+		// after S has dropped C it must not probe it any more: every later ping S->C must be a relay
+		// made on somebody else's request (one request, one ping), allowing one probe that was in flight
+		grace := leaveAt.Add(time.Duration(cf.AwarenessMaxMultiplier) * cf.ProbeInterval)
+		wmu.Lock()
+		pings, reqs := 0, 0
+		for _, w := range wire {
+			if !w.at.After(grace) || w.about != c.Name {
+				continue
+			}
+			if !w.indirect && w.from == s.Node.EP.Addr {
+				pings++
+			}
+			if w.indirect && w.to == s.Node.EP.Addr {
+				reqs++
+			}
+		}
+		wmu.Unlock()
+		// later re-joins of C (restart) are not generated in these scenarios: C stays down
+		rejoined := false
+		for _, e := range s.Node.Ev.Log() {
+			if e.Name == c.Name && e.Kind == "join" && e.At.After(leaveAt) {
+				rejoined = true
+			}
+		}
+		if pings > reqs && !rejoined {
+			fail("probes-dead-peer", "%s declared %s dead at +%v but sent it %d pings later on, only %d of which can be relays for others", s.Name, c.Name, leaveAt.Sub(ch.Start), pings, reqs)
+		}
+		run.Count("post-death_pings_all_relays", int64(pings))
+		run.Count("post-death_pairs_watched_on_wire", 1)
 		d := leaveAt.Sub(t0)
 		run.Max("detection_over_bound", float64(d)/float64(bound))
 		if d > bound {
